@@ -28,6 +28,11 @@ type SimRuntime interface {
 	BeforeSend(ch chan osm.Object)
 	BeforeRecv(ch chan osm.Object)
 	BeforeClose(ch chan osm.Object)
+	// BeforeLockAny announces a lock acquisition on p, which is a pointer to
+	// (or a pointer to a pointer to) a sync.Mutex or sync.RWMutex. It is what
+	// the simulator's build step inserts before every Lock/RLock call of this
+	// package that is not announced by one of the typed hooks above.
+	BeforeLockAny(p interface{}, write bool)
 }
 
 // Sim, when non-nil, receives the hooks below. It must only be changed while
@@ -86,6 +91,12 @@ func simBeforeSend(ch chan osm.Object) {
 func simBeforeRecv(ch chan osm.Object) {
 	if Sim != nil {
 		Sim.BeforeRecv(ch)
+	}
+}
+
+func simBeforeLockAny(p interface{}, write bool) {
+	if Sim != nil {
+		Sim.BeforeLockAny(p, write)
 	}
 }
 
